@@ -6,7 +6,7 @@
                    (nHOOK x16) (zCALL-SEQ ...) (zPUSH-SEQ ...) ((zSEQ zCODE) ...) nOTHER-FRAMES)  *)
 From Coq Require Import Strings.String Strings.Byte.
 From Coq Require Import List Arith NArith ZArith Bool Lia.
-From Verif Require Import Base.Bytes Base.Val Model.Auth.
+From Verif Require Import Base.Bytes Base.Val Model.Auth Model.AuthPool.
 Import ListNotations.
 Local Open Scope N_scope.
 
@@ -95,32 +95,45 @@ Definition run_bearer (limit sends : N) (prop : bool) (reply : bytes) (closes : 
       VL [VN sends; VN (if 2 <=? sends then 1 else 0)];
       VL (hooks_of t)].
 
-Definition run (inp : val) : option val :=
-  match inp with
-  | VL [tag; VN limit; VN sends; prop; VB reply; closes] =>
-      if sym_eqb tag "bearer"
-      then Some (run_bearer limit sends (sym_eqb prop "true") reply (sym_eqb closes "true"))
-      else None
-  | VL [VN limit; VL [VN recvs; prop; mode; VB token; VN panic_at; hb; ha; sid]; VL chunks; _entry; _order] =>
-      (* _entry = sserveconn | slistener, _order = how the plugin chain was put on the peer: Peer.ServeConn and Peer.ListenAndServe (serveListener) run the
-         same accept path; the model does not look at it, so both entry points must give the
-         observations of the one machine *)
-      match chunks_of chunks with
-      | None => None
-      | Some cs =>
-          let verify := if sym_eqb mode "all" then (fun _ => true)
+(* info receivers of the checker other than a *string behind the plain codec (gated family):
+   message.UnmarshalBody copies the body into a *[]byte without consulting the codec id;
+   the json codec into struct{Token string `json:"token"`}, exact on the one shape the harness
+   generates: {"token":"<letters>"} *)
+Definition info_dec_bytes (_ : byte) (body : bytes) : option bytes := Some body.
+
+Definition json_token (body : bytes) : option bytes :=
+  let pre := [x7b; x22] ++ str "token" ++ [x22; x3a; x22] in
+  if bytes_eqb (firstn (length pre) body) pre then
+    match frev (skipn (length pre) body) with
+    | c2 :: c1 :: t =>
+        if beqb c2 x7d && beqb c1 x22 && negb (existsb (fun b => beqb b x22 || beqb b x5c) t)
+        then Some (frev t) else None
+    | _ => None
+    end
+  else None.
+
+Definition info_dec_json (c : byte) (body : bytes) : option bytes :=
+  if beqb c "j" then json_token body else None.
+
+(* one connection of the server family.  [vsel]: the verdict function when it is not the one the
+   mode names (gated family: the checker compares what it holds when its gate opens) *)
+Definition run_server (dec : byte -> bytes -> option bytes) (vsel : option (bytes -> bool))
+           (limit recvs : N) (prop mode : val) (token : bytes) (panic_at : N) (hb ha sid : val)
+           (cs : list bytes) : val :=
+          let verify := match vsel with Some v => v | None =>
+                        if sym_eqb mode "all" then (fun _ => true)
                         else if sym_eqb mode "none" then (fun _ => false)
-                        else (fun i => bytes_eqb i token) in
+                        else (fun i => bytes_eqb i token) end in
           let ck := mkChecker (N.to_nat recvs) (sym_eqb prop "true") verify (N.to_nat panic_at)
                               (hookb_of hb) (hookb_of ha)
                               (if sym_eqb sid "pre" then 1%nat else if sym_eqb sid "post" then 2%nat else 0%nat) in
-          let stp := step status_code_simple info_dec_simple route_call_h route_push_h limit ck in
-          let s0 := pump status_code_simple info_dec_simple route_call_h route_push_h limit ck init in
+          let stp := step status_code_simple dec route_call_h route_push_h limit ck in
+          let s0 := pump status_code_simple dec route_call_h route_push_h limit ck init in
           let mid := fold_left stp (map Bytes cs) s0 in
           let fin := stp mid Eof in
           let t := trace fin in
           let eof_before := match ph mid with Closed => true | _ => false end in
-          Some (VL [snapshot mid; vbool eof_before; snapshot fin;
+          VL [snapshot mid; vbool eof_before; snapshot fin;
                     VL [VN (count_ev (fun e => match e with EvRecv | EvMultiRecv => true | _ => false end) t);
                         VN (count_ev (fun e => match e with EvMultiRecv => true | _ => false end) t)];
                     VL (flat_map (fun e => match e with EvAuthReply c => [VZ (canon c)] | _ => [] end) t);
@@ -139,15 +152,99 @@ Definition run (inp : val) : option val :=
                        if sym_eqb sid "none" then vsym "none"
                        else if existsb (fun e => match e with EvDisplace => true | _ => false end) t0
                             then vsym "displaced" else vsym "alive" in
-                     VL [res (trace mid); res t])])
+                     VL [res (trace mid); res t])].
+
+Definition run (inp : val) : option val :=
+  match inp with
+  | VL [tag; VN limit; VN sends; prop; VB reply; closes] =>
+      if sym_eqb tag "bearer"
+      then Some (run_bearer limit sends (sym_eqb prop "true") reply (sym_eqb closes "true"))
+      else None
+  | VL [VN limit; VL [VN recvs; prop; mode; VB token; VN panic_at; hb; ha; sid]; VL chunks; _entry; _order] =>
+      (* _entry = sserveconn | slistener, _order = how the plugin chain was put on the peer: Peer.ServeConn and Peer.ListenAndServe (serveListener) run the
+         same accept path; the model does not look at it, so both entry points must give the
+         observations of the one machine *)
+      match chunks_of chunks with
+      | None => None
+      | Some cs => Some (run_server info_dec_simple None limit recvs prop mode token panic_at hb ha sid cs)
       end
   | _ => None
   end.
+
+(* ---- gated family: (sgated sRECEIVER xTOKEN nPROCS (CASE ...) ((sopen|ssend|srelease nCONN) ...))
+        -> ((OBS INFO-AT-RECV INFO-AT-VERDICT) ...)
+   Every connection's checker is parked between RecvOnce and its comparison while the schedule goes on.
+   The pool system of Model/AuthPool.v is run with the copying store and, adversarially, with ONE
+   buffer handed to every read; the verdict of each connection's machine is taken on what the
+   system says its receiver holds when its gate opens. *)
+Definition dec_of_kind (kind : val) : byte -> bytes -> option bytes :=
+  if sym_eqb kind "bytes" then info_dec_bytes
+  else if sym_eqb kind "json" then info_dec_json else info_dec_simple.
+
+Definition first_info (dec : byte -> bytes -> option bytes) (limit : N) (cs : list bytes) : option bytes :=
+  match parse limit (concat cs) with
+  | PFrame f _ => match recv_of_frame status_code_simple dec f with RInfo i => Some i | RStat _ => None end
+  | _ => None
+  end.
+
+Definition gated_conn (c : val) : option (N * bytes * list bytes) :=
+  match c with
+  | VL [VN limit; VL [VN 1; _; _; VB token; VN 0; _; _; _]; VL chunks; _; _] =>
+      option_map (fun cs => (limit, token, cs)) (chunks_of chunks)
+  | _ => None
+  end.
+
+Fixpoint gated_conns (l : list val) : option (list (N * bytes * list bytes)) :=
+  match l with
+  | [] => Some []
+  | c :: r => match gated_conn c, gated_conns r with
+              | Some x, Some xs => Some (x :: xs)
+              | _, _ => None
+              end
+  end.
+
+Definition gated_events (dec : byte -> bytes -> option bytes) (conns : list (N * bytes * list bytes))
+           (sched : list val) : list pev :=
+  flat_map (fun s => match s with
+                     | VL [op; VN c] =>
+                         let k := N.to_nat c in
+                         if sym_eqb op "send" then
+                           match nth_error conns k with
+                           | Some (limit, _, cs) =>
+                               match first_info dec limit cs with
+                               | Some i => [PRecv k 0 i 0 (length i)]
+                               | None => []
+                               end
+                           | None => []
+                           end
+                         else if sym_eqb op "release" then [PVerdict k] else []
+                     | _ => []
+                     end) sched.
+
+Definition run_gated (kind : val) (conns : list (N * bytes * list bytes)) (sched : list val) : val :=
+  let dec := dec_of_kind kind in
+  let lg := plog (prun false (gated_events dec conns sched)) in
+  VL (map (fun kc =>
+             let '(k, (limit, token, cs)) := kc in
+             let at_recv := first_info dec limit cs in
+             let seen := match at_recv, log_of k lg with
+                         | Some _, Some v :: _ => Some v
+                         | _, _ => None
+                         end in
+             let verify := fun _ : bytes => match seen with Some v => bytes_eqb v token | None => false end in
+             VL [run_server dec (Some verify) limit 1 (vsym "false") (vsym "eq") token 0
+                            (vsym "none") (vsym "none") (vsym "none") cs;
+                 vopt at_recv; vopt seen])
+          (combine (seq 0 (length conns)) conns)).
 
 (* two connections whose accept phases overlapped: (soverlap CASE-A CASE-B) -> (OBS-A OBS-B).  Sessions of
    different connections share nothing in the accept path: each must show what it shows alone. *)
 Definition run_top (inp : val) : option val :=
   match inp with
+  | VL [t; kind; VB _; VN _; VL conns; VL sched] =>
+      if sym_eqb t "gated"
+      then option_map (fun cs => run_gated kind cs sched) (gated_conns conns)
+      else run inp
   | VL [t; a; b] =>
       if sym_eqb t "overlap"
       then match run a, run b with Some oa, Some ob => Some (VL [oa; ob]) | _, _ => None end
